@@ -2,6 +2,7 @@ import PromModel.Tsdb.BlockPopulate
 import PromProofs.BlockPopulate
 import PromProofs.BlockPopulateSeries
 import PromProofs.BlockPopulateSingle
+import PromProofs.BlockPopulateMulti
 /-
   C07 — Compaction preserves the union of its inputs.
   Property theorems only; helper lemmas live in PromProofs/BlockPopulate*.lean.
@@ -48,8 +49,8 @@ def RangeOK (mint maxt : Int) : Prop :=
     time-sorted inside the chunk's meta range). Then the written series, read back as (labels, samples),
     are exactly — same order, nothing lost, nothing invented, nothing duplicated — the source series that
     have at least one sample in `[mint, maxt]` not covered by a tombstone, each with exactly those samples.
-    This is the headline clause of the property for a single source, at full strength (partial = the
-    k-way merge of several sources is `populate_samples_full`, not proved). -/
+    This is the headline clause of the property for a single source, at full strength (partial = one
+    source; several sources: `populate_samples_nohint` / `populate_samples_merge`). -/
 theorem populate_samples_partial (m : Merger) (b : Block) (mint maxt : Int) (o : Output)
     (wf : ∀ s ∈ b.series, SeriesWF s) (hr : RangeOK mint maxt)
     (h : populate m [b] mint maxt = .ok o) :
@@ -159,7 +160,7 @@ theorem compact_two_blocks_example :
       some ([([("a", "1")], [⟨1, .float, 1⟩]), ([("a", "2")], [⟨2, .float, 2⟩, ⟨12, .float, 3⟩])], ⟨2, 3, 3, 3, 0⟩) := by
   decide
 
-/-! ### several sources: stated, not proved -/
+/-! ### several sources -/
 
 /-- the sorted, de-duplicated timestamps of a list of sample lists -/
 def unionTs (xss : List (List Sample)) : List Int :=
@@ -168,10 +169,9 @@ def unionTs (xss : List (List Sample)) : List Int :=
 /-- The full headline clause for any number of source blocks under the compacting merger: per label set,
     the timestamps written are the sorted de-duplicated union of the sources' visible timestamps, every
     written sample is a visible sample of some source, and a label set is written iff some source has a
-    visible sample for it. NOT PROVED: it needs C19's `merge_sets_sorted_unique_full`,
-    `compact_chunks_full` and `chain_next_total_full` (the heap-based k-way merges of `storage/merge.go`),
-    which are themselves unproved; for several sources the tie is the correspondence suite `compact`
-    (model = implementation, line for line) and the judge, which evaluates exactly this statement. -/
+    visible sample for it.  FALSE as literally stated (`populate_samples_full_witness`: counter-reset
+    hints are reset by the chain); proved in repaired form as `populate_samples_nohint` /
+    `populate_samples_merge`, on top of C19's `merge_sets_sorted_unique` and `compact_chunks`. -/
 def populate_samples_full : Prop :=
   ∀ (blocks : List Block) (mint maxt : Int) (o : Output),
     (∀ b ∈ blocks, (∀ s ∈ b.series, SeriesWF s) ∧ Asc (b.series.map (·.labels))) → RangeOK mint maxt →
@@ -181,5 +181,166 @@ def populate_samples_full : Prop :=
       let out := (o.series.filter fun cs => cs.1 == l).flatMap csSamples
       out.map (·.t) = unionTs src ∧ (∀ x ∈ out, ∃ xs ∈ src, x ∈ xs) ∧
       ((o.series.any fun cs => cs.1 == l) = src.any fun xs => !xs.isEmpty)
+
+/-- `populate_samples_full` as literally stated is FALSE: its second clause asks every written sample to
+    BE a visible source sample, but when two sources overlap in time the compacting merger reads the
+    overlapping chunks through `ChainedSeriesMerge`, whose `AtHistogram` resets a non-gauge counter-reset
+    hint to "unknown" whenever the previous sample came from another input (C19 `Chain.atSample`, C12).
+    Two blocks with one series `{a="1"}`: histograms with hint 1 at t = 10, 20 and at t = 15; the block
+    written holds the three timestamps, all with hint 0 — none of them is literally a source sample.
+    This is intended behaviour of the code (hints must not survive re-ordering), so the statement, not
+    the code, is wrong; `populate_samples_nohint_full` is the repaired statement (proved:
+    `populate_samples_nohint`), `populate_samples_merge` the version with hints. -/
+theorem populate_samples_full_witness : ¬ populate_samples_full := by
+  intro h
+  have hwf : ∀ b ∈ [(⟨0, 100, [⟨[("a", "1")], [Chunk.ofSamples [⟨10, .hist, 5⟩, ⟨20, .hist, 5⟩]], []⟩]⟩ : Block),
+      ⟨0, 100, [⟨[("a", "1")], [Chunk.ofSamples [⟨15, .hist, 9⟩]], []⟩]⟩],
+      (∀ s ∈ b.series, SeriesWF s) ∧ Asc (b.series.map (·.labels)) := by
+    intro b hb
+    simp only [List.mem_cons, List.not_mem_nil, or_false] at hb
+    rcases hb with rfl | rfl
+    · refine ⟨?_, by simp [Asc]⟩
+      intro s hs
+      simp only [List.mem_singleton] at hs
+      subst hs
+      refine ⟨by decide, ?_, by decide, by decide, by decide, ?_⟩
+      · unfold Intervals.AllI64 Intervals.I64; decide
+      · unfold Intervals.I64; decide
+    · refine ⟨?_, by simp [Asc]⟩
+      intro s hs
+      simp only [List.mem_singleton] at hs
+      subst hs
+      refine ⟨by decide, ?_, by decide, by decide, by decide, ?_⟩
+      · unfold Intervals.AllI64 Intervals.I64; decide
+      · unfold Intervals.I64; decide
+  have := (h _ 1 100
+    ⟨[([("a", "1")], [⟨10, 20, [⟨10, .hist, 4⟩, ⟨15, .hist, 8⟩, ⟨20, .hist, 4⟩]⟩])], ⟨1, 1, 3, 0, 3⟩⟩
+    hwf (by unfold RangeOK; decide) (by rfl) [("a", "1")]).2.1 ⟨10, .hist, 4⟩ (by decide)
+  revert this
+  decide
+
+/-- The repaired headline clause for several sources: as `populate_samples_full`, for sources whose
+    samples carry no counter-reset hint the chain could reset and whose chunks are time-ordered per series. -/
+def populate_samples_nohint_full : Prop :=
+  ∀ (blocks : List Block) (mint maxt : Int) (o : Output),
+    (∀ b ∈ blocks, (∀ s ∈ b.series, SeriesWF s ∧ s.chunks.Pairwise (fun a b => a.maxt < b.mint) ∧
+      ∀ c ∈ s.chunks, ∀ x ∈ c.samples, NoHint x) ∧ Asc (b.series.map (·.labels))) → RangeOK mint maxt →
+    populate .compact blocks mint maxt = .ok o →
+    ∀ l : Labels,
+      let src := (blocks.flatMap fun b => b.series.filter fun s => s.labels == l).map (visible mint maxt)
+      let out := (o.series.filter fun cs => cs.1 == l).flatMap csSamples
+      out.map (·.t) = unionTs src ∧ (∀ x ∈ out, ∃ xs ∈ src, x ∈ xs) ∧
+      ((o.series.any fun cs => cs.1 == l) = src.any fun xs => !xs.isEmpty)
+
+/-- membership in the list of visible sample lists of the sources with label set `l` -/
+theorem mem_src (blocks : List Block) (mint maxt : Int) (l : Labels) (xs : List Sample) :
+    xs ∈ (blocks.flatMap fun b => b.series.filter fun s => s.labels == l).map (visible mint maxt) ↔
+      ∃ b ∈ blocks, ∃ s ∈ b.series, s.labels = l ∧ visible mint maxt s = xs := by
+  simp only [List.mem_map, List.mem_flatMap, List.mem_filter, beq_iff_eq]
+  constructor
+  · rintro ⟨s, ⟨b, hb, hs, hl⟩, rfl⟩; exact ⟨b, hb, s, hs, hl, rfl⟩
+  · rintro ⟨b, hb, s, hs, hl, rfl⟩; exact ⟨s, ⟨b, hb, hs, hl⟩, rfl⟩
+
+/-- Several source blocks under the compacting merger, WITH counter-reset hints: per label set the
+    timestamps written are the sorted de-duplicated union of the sources' visible timestamps, every written
+    sample is a visible sample of some source up to a hint the chain reset (only non-gauge histograms), and
+    a label set is written iff some source has a visible sample for it.  Sources: `SeriesWF`, chunks of a
+    series in time order, label sets ascending per block. -/
+theorem populate_samples_merge (blocks : List Block) (mint maxt : Int) (o : Output)
+    (hb : ∀ b ∈ blocks, (∀ s ∈ b.series, SeriesWF s ∧ s.chunks.Pairwise (fun a b => a.maxt < b.mint)) ∧
+      Asc (b.series.map (·.labels)))
+    (hr : RangeOK mint maxt) (h : populate .compact blocks mint maxt = .ok o) (l : Labels) :
+    let src := (blocks.flatMap fun b => b.series.filter fun s => s.labels == l).map (visible mint maxt)
+    let out := (o.series.filter fun cs => cs.1 == l).flatMap csSamples
+    out.map (·.t) = unionTs src ∧
+    (∀ x ∈ out, ∃ xs ∈ src, ∃ y ∈ xs, x = y ∨
+      (y.kind ≠ .float ∧ y.payload % 4 ≠ 3 ∧ x = { y with payload := y.payload / 4 * 4 })) ∧
+    ((o.series.any fun cs => cs.1 == l) = src.any fun xs => !xs.isEmpty) := by
+  intro src out
+  obtain ⟨p1, p2, p3, p4⟩ := populate_multi blocks mint maxt o
+    (fun b hbm => ⟨fun s hs => ⟨((hb b hbm).1 s hs).1, ((hb b hbm).1 s hs).2⟩, (hb b hbm).2⟩) hr.1 hr.2 h l
+  refine ⟨?_, ?_, ?_⟩
+  · apply strict_ext
+    · unfold SortedL at p1
+      rw [List.pairwise_map]; exact p1
+    · apply eraseDups_strict
+      have := List.pairwise_mergeSort (le := fun (a b : Int) => decide (a ≤ b))
+        (by intro a b c; simp; omega) (by intro a b; simp; omega) (src.flatten.map (·.t))
+      simpa using this
+    · intro t
+      unfold unionTs
+      rw [List.mem_eraseDups, List.mem_mergeSort]
+      constructor
+      · intro ht
+        obtain ⟨x, hx, rfl⟩ := List.mem_map.1 ht
+        obtain ⟨b, hbm, s, hs, hl, y, hy, hxy⟩ := p2 x hx
+        exact List.mem_map.2 ⟨y, List.mem_flatten.2 ⟨_, (mem_src blocks mint maxt l _).2 ⟨b, hbm, s, hs, hl, rfl⟩, hy⟩,
+          hxy.t.symm⟩
+      · intro ht
+        obtain ⟨y, hy, rfl⟩ := List.mem_map.1 ht
+        obtain ⟨xs, hxs, hyx⟩ := List.mem_flatten.1 hy
+        obtain ⟨b, hbm, s, hs, hl, rfl⟩ := (mem_src blocks mint maxt l xs).1 hxs
+        exact p3 b hbm s hs hl y hyx
+  · intro x hx
+    obtain ⟨b, hbm, s, hs, hl, y, hy, hxy⟩ := p2 x hx
+    exact ⟨_, (mem_src blocks mint maxt l _).2 ⟨b, hbm, s, hs, hl, rfl⟩, y, hy, hxy⟩
+  · rw [Bool.eq_iff_iff, p4, List.any_eq_true]
+    constructor
+    · rintro ⟨b, hbm, s, hs, hl, hv⟩
+      refine ⟨_, (mem_src blocks mint maxt l _).2 ⟨b, hbm, s, hs, hl, rfl⟩, ?_⟩
+      cases hvs : visible mint maxt s with
+      | nil => exact (hv hvs).elim
+      | cons a r => rfl
+    · rintro ⟨xs, hxs, hne⟩
+      obtain ⟨b, hbm, s, hs, hl, rfl⟩ := (mem_src blocks mint maxt l xs).1 hxs
+      refine ⟨b, hbm, s, hs, hl, ?_⟩
+      intro h0; rw [h0] at hne; simp at hne
+
+/-- `populate_samples_nohint_full` holds: the headline clause of the property for ANY number of source
+    blocks under the compacting merger (sources without resettable counter-reset hints). -/
+theorem populate_samples_nohint : populate_samples_nohint_full := by
+  intro blocks mint maxt o hb hr h l
+  obtain ⟨q1, q2, q3⟩ := populate_samples_merge blocks mint maxt o
+    (fun b hbm => ⟨fun s hs => ⟨((hb b hbm).1 s hs).1, ((hb b hbm).1 s hs).2.1⟩, (hb b hbm).2⟩) hr h l
+  refine ⟨q1, ?_, q3⟩
+  intro x hx
+  obtain ⟨xs, hxs, y, hy, hxy⟩ := q2 x hx
+  refine ⟨xs, hxs, ?_⟩
+  obtain ⟨b, hbm, s, hs, hl, rfl⟩ := (mem_src blocks mint maxt l xs).1 hxs
+  have hyn : NoHint y := by
+    unfold visible at hy
+    obtain ⟨c, hc, hyc⟩ := List.mem_flatMap.1 (List.mem_filter.1 hy).1
+    exact ((hb b hbm).1 s hs).2.2 c hc y hyc
+  have : x = y := hm_nohint hxy hyn
+  rw [this]; exact hy
+
+/-- the hypotheses of `populate_samples_nohint` are satisfiable and the run is not trivial: two blocks
+    whose series `{a="1"}` overlap in time and share the timestamp 20 -/
+example :
+    let blocks : List Block :=
+      [⟨0, 100, [⟨[("a", "1")], [Chunk.ofSamples [⟨10, .float, 1⟩, ⟨20, .float, 2⟩]], []⟩]⟩,
+       ⟨0, 100, [⟨[("a", "1")], [Chunk.ofSamples [⟨15, .float, 3⟩, ⟨20, .float, 2⟩]], []⟩]⟩]
+    (∀ b ∈ blocks, (∀ s ∈ b.series, SeriesWF s ∧ s.chunks.Pairwise (fun a b => a.maxt < b.mint) ∧
+      ∀ c ∈ s.chunks, ∀ x ∈ c.samples, NoHint x) ∧ Asc (b.series.map (·.labels))) ∧ RangeOK 1 100 ∧
+    (match populate .compact blocks 1 100 with
+     | .ok o => some (o.series.map proj)
+     | .error _ => none) = some [([("a", "1")], [⟨10, .float, 1⟩, ⟨15, .float, 3⟩, ⟨20, .float, 2⟩])] := by
+  refine ⟨?_, by unfold RangeOK; decide, by decide⟩
+  intro b hb
+  simp only [List.mem_cons, List.not_mem_nil, or_false] at hb
+  rcases hb with rfl | rfl
+  all_goals
+    refine ⟨?_, by simp [Asc]⟩
+    intro s hs
+    simp only [List.mem_singleton] at hs
+    subst hs
+    refine ⟨⟨by decide, ?_, by decide, by decide, by decide, ?_⟩, by simp, ?_⟩
+    · unfold Intervals.AllI64 Intervals.I64; decide
+    · unfold Intervals.I64; decide
+    · intro c hc x hx
+      simp only [List.mem_singleton] at hc
+      subst hc
+      simp only [Chunk.ofSamples, List.mem_cons, List.not_mem_nil, or_false] at hx
+      rcases hx with rfl | rfl <;> exact Or.inl rfl
 
 end Prom.C07
